@@ -5,7 +5,7 @@
 (* that reached the parent; the step is accepted iff the parent's new content  *)
 (* is fb (+) Effect(stack, op) and no clipped point reached the parent.        *)
 EXTENDS TraceBase, P_C03
-VARIABLES l, pbox, stack, fb
+VARIABLES l, pbox, stack, fb, native
 
 \* conversion table of a cc layer as a function
 CMapOf(table) == [c \in { table[i][1] : i \in 1..Len(table) } |->
@@ -16,23 +16,34 @@ MkStack(layers, cmaps) ==
        [] layers[i].k = "cc" -> [k |-> "cc", cmap |-> CMapOf(cmaps[i])]
        [] OTHER -> [k |-> layers[i].k, a |-> layers[i].a]]
 
-Init == l = 1 /\ pbox = Zero /\ stack = <<>> /\ fb = EmptyFb
+\* recorded call (with the recorder's extra fields) vs transcribed call; a recorded colour stream that was
+\* cut off by the recorder (`over`) is compared as a prefix
+SameCall(r, t) == /\ r.m = t.m /\ r.area = t.area /\ r.color = t.color /\ r.px = t.px
+                  /\ IF r.over THEN Len(r.colors) <= Len(t.colors) /\ r.colors = SubSeq(t.colors, 1, Len(r.colors))
+                     ELSE r.colors = t.colors
+SameCalls(rs, ts) == Len(rs) = Len(ts) /\ \A i \in 1..Len(rs) : SameCall(rs[i], ts[i])
 
-StepCase(e) == e.ev = "case" /\ pbox' = Zero /\ stack' = <<>> /\ fb' = EmptyFb
+Init == l = 1 /\ pbox = Zero /\ stack = <<>> /\ fb = EmptyFb /\ native = 1
+
+StepCase(e) == e.ev = "case" /\ pbox' = Zero /\ stack' = <<>> /\ fb' = EmptyFb /\ native' = 1
 StepStack(e) ==
   /\ e.ev = "stack"
-  /\ pbox' = e.pbox /\ stack' = MkStack(e.layers, e.cmaps) /\ fb' = EmptyFb
+  /\ pbox' = e.pbox /\ stack' = MkStack(e.layers, e.cmaps) /\ fb' = EmptyFb /\ native' = e.native
   /\ Report(e.case, BoxFails(e.pbox, stack', e.boxes), [boxes |-> e.boxes])
 StepOp(e) ==
   /\ e.ev = "op"
   /\ Report(e.case, OpFails(pbox, stack, fb, e.op, e.parent), [op |-> e.op, nparent |-> Len(e.parent)])
+  /\ DriftReport(e.case,
+        LET low == LowerStack(pbox, stack, Len(stack), e.op) IN
+        SameCalls(e.parent, IF native = 1 THEN <<low>> ELSE <<LowerDefault(pbox, low)>>),
+        "adapter_lowering_transcription", [op |-> e.op, nparent |-> Len(e.parent)])
   /\ fb' = ApplyAll(fb, pbox, e.parent)        \* continue from what the implementation did
-  /\ UNCHANGED <<pbox, stack>>
-StepPanic(e) == e.ev = "panic" /\ UNCHANGED <<pbox, stack, fb>>
+  /\ UNCHANGED <<pbox, stack, native>>
+StepPanic(e) == e.ev = "panic" /\ UNCHANGED <<pbox, stack, fb, native>>
 Next == /\ l <= NRec
         /\ LET e == Rec[l] IN StepCase(e) \/ StepStack(e) \/ StepOp(e) \/ StepPanic(e)
         /\ l' = l + 1
-Spec == Init /\ [][Next]_<<l, pbox, stack, fb>>
+Spec == Init /\ [][Next]_<<l, pbox, stack, fb, native>>
 Done == IF TLCGet("stats").diameter = NRec + 1
         THEN PrintT("TRACE-ACCEPTED " \o ToString(NRec))
         ELSE PrintT("TRACE-REJECTED at line " \o ToString(TLCGet("stats").diameter)) /\ FALSE
